@@ -108,6 +108,20 @@ pub fn emit_turbofish(ty: &Type, generics: &[&GenericParam]) -> Type {
     }
 }
 
+/// Renames an enum variant identifier exactly the way `#[serde(rename_all = "snake_case")]` does,
+/// so that the names published by the generated `*_messages()` functions are the names
+/// under which the messages are (de)serialized.
+pub fn serde_snake_case(variant: &str) -> String {
+    let mut snake = String::new();
+    for (i, ch) in variant.char_indices() {
+        if i > 0 && ch.is_uppercase() {
+            snake.push('_');
+        }
+        snake.push(ch.to_ascii_lowercase());
+    }
+    snake
+}
+
 /// Trait for converting `Ident` to different cases preserving original [proc_macro2::Span].
 pub trait SvCasing {
     fn to_case(&self, case: convert_case::Case) -> Self;
